@@ -162,7 +162,8 @@ package sql
 //@ effect[C12:existing-row-never-blindly-overwritten] never sms.objectRepository.SaveObject(_, _, _) if oldObjectEntity != nil && specNotAGeneratedVersion(oldObjectEntity.VersionID)
 //@ ensures[C12:lost-race-reported] called(sms.objectRepository.UpdateObjectByIdAndOptimisticLockVersion) && result_of(sms.objectRepository.UpdateObjectByIdAndOptimisticLockVersion, 1) == nil &&
 //@     !*result_of(sms.objectRepository.UpdateObjectByIdAndOptimisticLockVersion, 0) ==> err == metadatastore.ErrCASFailure
-//@ effect[C12:new-part-rows-continue-the-sequence] every sms.savePartRows(_, _, $id, $p, $from) if oldObjectEntity != nil where $from == len(existingParts)
+//@ effect[C12:new-part-rows-continue-the-sequence] every sms.savePartRows(_, _, $id, $p, $from) if oldObjectEntity != nil
+//@     where $from == len(existingParts) && len(existingParts) <= len(obj.Parts) && same($p, obj.Parts[len(existingParts):])
 //@ effect[C13:in-place-append-only-without-enabled-versioning] every sms.objectRepository.UpdateObjectByIdAndOptimisticLockVersion(_, _, _, _) where !versioningEnabled
 //@ effect[C13:in-place-append-only-to-the-null-version] every sms.objectRepository.UpdateObjectByIdAndOptimisticLockVersion(_, _, $e, _) where $e != nil && specNotAGeneratedVersion($e.VersionID)
 
